@@ -325,12 +325,13 @@ def mutant(rng, name, data):
         if pages:
             gi, ci, md, off, hdr, hsize, csize = rng.choice(pages)
             payload = bytearray(data[off + hsize:off + hsize + csize])
-            c = rng.randrange(5)
+            c = rng.choice([0, 1, 1, 2, 3, 4])
             if payload and c == 0:
                 for _ in range(rng.choice([1, 1, 2, 8])):
                     payload[rng.randrange(len(payload))] ^= 1 << rng.randrange(8)
             elif payload and c == 1:
-                i = rng.randrange(len(payload))
+                # a 32-bit length field: the level-block prefix at the start of the page, or anywhere
+                i = 0 if rng.random() < 0.6 else rng.randrange(len(payload))
                 payload[i:i + 4] = struct.pack("<I", rng.choice([0xFFFFFFFF, 0x7FFFFFFF, len(payload), len(payload) + 1, 0, 0x80000000]))[:max(0, min(4, len(payload) - i))]
             elif payload and c == 2:
                 payload = payload[:rng.randrange(len(payload))]      # payload shorter than the header says
@@ -404,9 +405,9 @@ def judge(rep, cases, out, stats):
         if c == "FAULT":
             kind = o.split()[1]
             stats["fault:" + key_of(o)] = stats.get("fault:" + key_of(o), 0) + 1
-            if kind == "ubsan":
+            if kind == "ubsan-arith":
                 # undefined behaviour that is not a bounds violation is tracked separately (DESIGN.md section 10)
-                stats["ubsan"] = stats.get("ubsan", 0) + 1
+                stats["ubsan-arith"] = stats.get("ubsan-arith", 0) + 1
                 rep.cov.setdefault("ubsan_reports", [])
                 if len(rep.cov["ubsan_reports"]) < 5:
                     rep.cov["ubsan_reports"].append({"where": o.split()[2], "mutation": label})
